@@ -104,6 +104,7 @@ def run(ctx):
     ctx.assumptions += ['TLC/SANY', 'JSON marshalling', 'cryptography / hashlib as primitives (CFB, RSA PKCS#1 v1.5, X25519/ECDH, AES key wrap, SHA-x)',
                         'S2K derivation of the independent side is the one validated by C12']
     warnings.simplefilter('ignore')
+    ctx.model('MC_Encrypt')
     g = ctx.model('Gen_Enc')
     scen = [p[1] for p in g.prints if isinstance(p, list) and p and p[0] == 'SCN']
     if len(scen) < 300:
